@@ -137,13 +137,23 @@ def sig_complete(repo, res):
     for fname in ("compile_forms", "compile_expressions"):
         f = j.func(fname)
         res.functions.add(f.key)
+        # every parameter that changes the produced binary is an argument of _compilation_signature
+        key = f"{f.key}:binary-affecting-parameters-in-signature"
+        res.ob(key)
+        csc = [c for c in calls_in(f.node) if (call_name(c) or "") == "_compilation_signature"]
+        passed = {n.id for c in csc for a in list(c.args) + [k.value for k in c.keywords] for n in ast.walk(a) if isinstance(n, ast.Name)}
+        affecting = [p for p in f.params if p in ("cffi_extra_compile_args", "cffi_debug", "cffi_libraries")]
+        missing = [p for p in affecting if p not in passed]
+        if missing:
+            res.fail(key, f"{fname}: {missing} change the compiled module but are not part of its signature: two requests differing only in them share one cached binary",
+                     j.line(f.node))
         calls = [c for c in calls_in(f.node) if (call_name(c) or "").endswith("compute_signature")]
         if len(calls) != 1 or len(calls[0].args) < 2:
             raise AnalysisError(f"{fname}: compute_signature(objects, tag) call not found")
         c = calls[0]
         sl = Slicer(f.node)
         ttext = sl.text(c.args[1])
-        for what, pat in (("options", r"_compute_option_signature\((\w+)\)"), ("compile-args", r"_compilation_signature\(\s*cffi_extra_compile_args\s*,\s*cffi_debug\s*\)")):
+        for what, pat in (("options", r"_compute_option_signature\((\w+)\)"), ("compile-args", r"_compilation_signature\(\s*cffi_extra_compile_args\s*,\s*cffi_debug\s*(,\s*(cffi_libraries=)?cffi_libraries\s*)?\)")):
             key = f"{f.key}:tag:{what}"
             res.ob(key)
             mm = re.search(pat, ttext)
@@ -219,9 +229,16 @@ def sig_complete(repo, res):
         key = f"{csig.key}:return:{r.lineno and 'branch'}:{len(res.instances)}"
         res.ob(key)
         t = ast.unparse(r.value) if r.value is not None else ""
-        miss = [w for w in ("cffi_extra_compile_args", "cffi_debug", "get_config_var") if w not in t]
+        csl = Slicer(csig.node)
+        full = (csl.text(r.value) if r.value is not None else "") + " " + t
+        miss = [w for w in ("cffi_extra_compile_args", "cffi_debug", "get_config_var") if w not in full]
         if miss:
             res.fail(f"{csig.key}:return", f"_compilation_signature branch returns `{t[:80]}` without {miss}", j.line(r))
+        lossy = re.search(r"\b(set|frozenset|sorted|fromkeys|unique)\([^()]*(?:\([^()]*\))?[^()]*cffi_extra_compile_args", full)
+        if lossy:
+            res.fail(f"{csig.key}:return", f"the compiler flags enter the signature through `{lossy.group(1)}(...)`, which forgets their order / repetition: compilers honour "
+                     "flag order (the last -O, -D/-U wins), so ['-O0','-O2'] and ['-O2','-O0'] would share a module name and the second request loads the first one's binary",
+                     j.line(r))
         if "win32" not in ast.unparse(csig.node) or ("SOABI" not in t and "EXT_SUFFIX" not in t):
             res.fail(f"{csig.key}:abi", "compilation signature lacks the interpreter ABI tag (SOABI / EXT_SUFFIX)", j.line(r))
 
@@ -336,7 +353,10 @@ def name_key(repo, res):
         cs_calls = [c for c in calls_in(g.node) if (call_name(c) or "").endswith("compute_signature")]
         if len(cs_calls) != 1:
             raise AnalysisError(f"{fn}: compute_signature call not found")
-        used = {n.id for a in cs_calls[0].args for n in ast.walk(a) if isinstance(n, ast.Name)}
+        gsl = Slicer(g.node)
+        used = set()
+        for a in cs_calls[0].args:
+            used |= set(gsl.names(a)) | {n.id for n in ast.walk(a) if isinstance(n, ast.Name)}
         unused = [p for p in g.params if p not in used]
         if unused:
             res.fail(key, f"{fn} ignores its parameter(s) {unused} when computing the name", nm_mod.line(g.node))
@@ -346,6 +366,39 @@ def name_key(repo, res):
         kind = fn.split("_")[0]
         if not rets or not isinstance(rets[0].value, ast.JoinedStr) or not ast.unparse(rets[0].value).startswith(f"f'{kind}_"):
             res.fail(key, f"{fn} does not return an identifier with the `{kind}_` family prefix", nm_mod.line(g.node))
+    # every call of form_name / expression_name passes the position of the object in its module: equal signatures are possible
+    # (grad(f) and grad(g) for two coefficients of one space at the same points), the index keeps the C names apart
+    for m_ in repo.modules.values():
+        for fn_ in m_.funcs.values():
+            for c in calls_in(fn_.node):
+                nm = (call_name(c) or "").split(".")[-1]
+                if nm not in ("form_name", "expression_name"):
+                    continue
+                key = f"{fn_.key}:{nm}:per-object-index"
+                res.ob(key)
+                res.functions.add(fn_.key)
+                callee = nm_mod.func(nm)
+                ps = callee.params
+                bound = {ps[i]: a for i, a in enumerate(c.args) if i < len(ps)}
+                bound.update({k.arg: k.value for k in c.keywords if k.arg})
+                idx_param = [p for p in ps if p.endswith("_id") or p in ("index", "i")]
+                arg = bound.get(idx_param[0]) if idx_param else None
+                if arg is None or (isinstance(arg, ast.Constant) and arg.value is None):
+                    res.fail(key, f"{fn_.qualname} calls {nm}() without the position of the object in its module: two objects with the same signature "
+                             "(compile_expressions([(grad(f), pts), (grad(g), pts)])) get one C name and the module does not compile", m_.line(c))
+                    continue
+                # the argument is an enumerate() index of an enclosing loop / comprehension, or a parameter fed by one
+                names = {n.id for n in ast.walk(arg) if isinstance(n, ast.Name)}
+                enum_vars = set()
+                for n in ast.walk(fn_.node):
+                    gens = n.generators if isinstance(n, (ast.ListComp, ast.GeneratorExp, ast.SetComp, ast.DictComp)) else ([n] if isinstance(n, ast.For) else [])
+                    for g_ in gens:
+                        it = g_.iter
+                        tg = g_.target
+                        if isinstance(it, ast.Call) and call_name(it) == "enumerate" and isinstance(tg, ast.Tuple) and isinstance(tg.elts[0], ast.Name):
+                            enum_vars.add(tg.elts[0].id)
+                if not (names & (enum_vars | set(fn_.params))):
+                    res.fail(key, f"{fn_.qualname}: the index passed to {nm}() is `{ast.unparse(arg)}`, neither an enumerate() index nor a parameter", m_.line(c))
     # jit name lists must be computed by the same naming functions with the module name as prefix
     j = repo.mod(JIT)
     for fname, nmf in (("compile_forms", "form_name"), ("compile_expressions", "expression_name")):
